@@ -274,7 +274,9 @@ def run_job_inner(job):
                 out.setdefault("bfix_unmodelled", {})
                 out["bfix_unmodelled"][sweep_short(owner)] = out["bfix_unmodelled"].get(sweep_short(owner), 0) + len(st.edits)
                 continue
-            if st.rule not in pcache:
+            if getattr(st, "params", None) is not None:
+                pcache[st.rule] = st.params
+            elif st.rule not in pcache:
                 rule = next((r for r in rl.rules if r.unique_id == st.rule), None)
                 pcache[st.rule] = vsgrun.rule_params(rule, ci) if rule is not None else {}
             # shared / overlapping regions make the per-violation old tokens ambiguous: skip them
